@@ -123,6 +123,12 @@ func workerMain() {
 	sc := bufio.NewScanner(os.Stdin)
 	sc.Buffer(make([]byte, 1<<20), 1<<28)
 	w := bufio.NewWriterSize(os.Stdout, 1<<20)
+	// the scripts' printf goes to os.Stdout: point it at a scratch file read back after each case
+	if f, err := os.CreateTemp("", "verif-stdout-*"); err == nil {
+		os.Remove(f.Name())
+		captureFile = f
+		os.Stdout = f
+	}
 	for sc.Scan() {
 		var req workerReq
 		if err := json.Unmarshal(sc.Bytes(), &req); err != nil {
@@ -170,4 +176,18 @@ func runV1(rc runCase) map[string]any {
 	res["fns"] = []string{}
 	res["loaderrs"] = map[string]any{}
 	return res
+}
+
+var captureFile *os.File
+
+// takeStdout returns what the case printed and empties the scratch file
+func takeStdout() string {
+	if captureFile == nil {
+		return ""
+	}
+	captureFile.Seek(0, 0)
+	b, _ := io.ReadAll(captureFile)
+	captureFile.Truncate(0)
+	captureFile.Seek(0, 0)
+	return string(b)
 }
